@@ -1590,7 +1590,7 @@ fn thorough_works() -> Vec<Work> {
 fn main() {
     let (args, corpus) = hv::cli();
     let mut rep = Report::new(&args.out);
-    rep.rule = "histories of didOpen/didChange/didSave/didClose/didChangeWatchedFiles/executeCommand/didChangeConfiguration over 4 documents (3 files in 2 directories, 1 untitled) in 4 languages (plaintext, markdown, python, unknown), 2 settings objects, user- and file-dictionary words; schedules at client-interaction granularity executed on the real Backend: corpus (the model's refuting schedules), sequential histories, random interleavings with <= 4 handlers in flight, a malformed stream (messages for closed documents, double opens, inexecutable schedules); thorough adds ALL interleavings of every ordered pair of 10 messages (2 in flight) and of every ordered triple of 3-4 messages (3 in flight) after 4 prefixes (saved file + second document, dirty file, untitled + file, source code). non-trivial = distinct case with >= 2 messages and >= 1 publication".into();
+    rep.rule = "histories of didOpen/didChange/didSave/didClose/didChangeWatchedFiles/executeCommand/didChangeConfiguration over 4 documents (3 files in 2 directories, 1 untitled) in 4 languages (plaintext, markdown, python, unknown), 2 settings objects, user- and file-dictionary words; schedules at client-interaction granularity executed on the real Backend: corpus (the model's refuting schedules), sequential histories, random interleavings with <= 4 handlers in flight, bursts of 4 messages handled together, a malformed stream (messages for closed documents, double opens, inexecutable schedules); thorough adds ALL interleavings of every ordered pair of 10 messages (2 in flight) and of every ordered triple of 3-4 messages (3 in flight) after 4 prefixes (saved file + second document, dirty file, untitled + file, source code). non-trivial = distinct case with >= 2 messages and >= 1 publication".into();
     let base = format!("/tmp/w-c09-{}", std::process::id());
     let rt = runtime();
     let _g = rt.enter();
@@ -1631,6 +1631,21 @@ fn main() {
             c.origin = "interleaved".into();
             let window = r.range(2, 4);
             let plan = random_schedule_plan(&mut r, c.ops.len(), window);
+            works.push(Work::Planned(c, plan));
+        }
+        // bursts: the last four messages are sent back-to-back and all four handlers are in flight together
+        for _ in 0..args.scale(50, 400) {
+            let len = r.range(4, 7);
+            let mut c = random_history(&mut r, len, true);
+            c.origin = "burst-of-4".into();
+            let pre = len - 4;
+            let mut plan = sequential_plan(pre);
+            plan.extend([K::Admit, K::Admit, K::Admit, K::Admit]);
+            let mut runs: Vec<usize> = (pre..len).flat_map(|i| [i, i, i, i]).collect();
+            while !runs.is_empty() {
+                let i = r.below(runs.len());
+                plan.push(K::Run(runs.swap_remove(i)));
+            }
             works.push(Work::Planned(c, plan));
         }
         // malformed stream
